@@ -216,11 +216,22 @@ func wildGen(prop string) func(rng *verifsim.RNG, idx int, tier string) *Plan {
 			if prop == "C15" {
 				seam = "rtnl.route"
 			}
-			p.Faults = append(p.Faults, Fault{Seam: seam, From: t0, Hold: "hx"})
+			// (the parked listing is the build's first, second or third: every
+			// wildcard stanza makes its own)
+			p.Faults = append(p.Faults, Fault{Seam: seam, From: t0, Hold: "hx", Skip: rng.Intn(3)})
 			p.Actions = append(p.Actions, rsAction(t0+1000, hostAddr(0)),
 				Action{At: t0 + 600*nsMs, Kind: "http", Path: []string{"/_/api/interfaces", "/metrics"}[rng.Intn(2)]},
 				Action{At: t0 + 700*nsMs, Kind: "release", Hold: "hx"},
 				rsAction(t0+900*nsMs, hostAddr(1)))
+			if rng.Bool(0.5) {
+				// ... and the tables change between the expansion that overtook and
+				// the parked one's listing: each is made from what it was given
+				if prop == "C15" {
+					p.Actions = append(p.Actions, Action{At: t0 + 650*nsMs, Kind: "routes", Routes: pickRoutes(rng, 8, false)})
+				} else {
+					p.Actions = append(p.Actions, Action{At: t0 + 650*nsMs, Kind: "addrs", If: iw.Name, Addrs: pickAddrs(rng, iw.LL, 10)})
+				}
+			}
 			if p.Horizon < t0+2*nsSec {
 				p.Horizon = t0 + 2*nsSec
 			}
